@@ -393,6 +393,13 @@ def validate(records, progs, timeout: int = 3000):
             for p in progs:
                 f.write(json.dumps({k: v for k, v in p.items() if k not in ('src',)}, separators=(',', ':')) + '\n')
         n = min(core.NCPU, max(1, len(records) // 150))
+        # running total of steps per shard (validate_trace deals records[i::n] to shard i): the acceptance condition compares it with
+        # the number of states TLC went through
+        for i in range(n):
+            cum = 0
+            for r in records[i::n]:
+                cum += len(r['ev']) + 1
+                r['cum'] = cum
         return core.validate_trace('StmtTrace', records, nshards=n, cfg='StmtTrace', env={'PROG_FILE': pf}, timeout=timeout)
     finally:
         import shutil
